@@ -58,3 +58,9 @@ pub assume_specification<T, A: core::alloc::Allocator, F: FnMut() -> T>[Vec::<T,
         final(v)@.len() == new_len,
         forall|i: int| 0 <= i < new_len && i < old(v)@.len() ==> #[trigger] final(v)@[i] == old(v)@[i],
         forall|i: int| old(v)@.len() <= i < new_len ==> f.ensures((), #[trigger] final(v)@[i]);
+
+pub assume_specification<T, U, F: FnOnce(T) -> U>[Poll::<T>::map](p: Poll<T>, f: F) -> (r: Poll<U>)
+    requires p matches Poll::Ready(t) ==> f.requires((t,)),
+    ensures
+        p is Pending ==> r is Pending,
+        p matches Poll::Ready(t) ==> (r matches Poll::Ready(u) && f.ensures((t,), u));
